@@ -54,11 +54,11 @@ func authCodeOf(ver19 bool, body []byte) []byte {
 }
 
 type replyOpts struct {
-	prop        string
-	callbacks   bool // check read/write callback rules
-	wantAll     bool // at the end every expected reply must have been written (connection still open)
-	numbering   bool
-	skipClosed  bool
+	prop       string
+	callbacks  bool // check read/write callback rules
+	wantAll    bool // at the end every expected reply must have been written (connection still open)
+	numbering  bool
+	skipClosed bool
 }
 
 // checkReplyModel runs the sequential reference server over each connection's history.
